@@ -10,7 +10,7 @@ VARS = {
     "lower": ["s", "np", "vp", "x1", "y", "zed"],
     "lowerclash": ["s", "n", "vp", "b", "y", "Cap"],           # lower-case names shared by variables and terminals
     "termlike": ["S", "#TERM#a", "#TERM#b", "Start", "C#CNF#2"],
-    "odd": ["S", "1st", "_tmp", "#n", "Éa", "x-y"],
+    "odd": ["S", "#n", "1st", "_tmp", "Éa", "x-y"],
     "cnfnames": ["S", "C#CNF#2", "C#CNF#4", "C#CNF#1"],
     "lookalike": [0, "0", 1, "1", "S"],
     "eqprint": ["S", 1, True, 0, False],                       # equal and hash-equal values that print differently
